@@ -34,7 +34,7 @@ def run_one(m, verbose=False):
             p = os.path.join(scratch, ed["file"])
             with open(p) as f:
                 t = f.read()
-            if t.count(ed["old"]) != 1:
+            if t.count(ed["old"]) != 1 and not (ed.get("all") and t.count(ed["old"]) > 1):
                 return "SKIP", "edit does not apply uniquely to %s (count %d)" % (ed["file"], t.count(ed["old"]))
             t = t.replace(ed["old"], ed["new"])
             with open(p, "w") as f:
